@@ -2,7 +2,7 @@
    Only statements, `exact`, Print Assumptions and non-vacuity examples. *)
 From Coq Require Import List Bool Arith Reals Lra Sorted.
 Import ListNotations.
-From PS Require Import Num RLemmas Valid ModelKernels ModelFuncs ModelAPI Spec SyncDefs Lem_IsiProps Lem_Transform Lem_Transform2.
+From PS Require Import Num RLemmas Valid ModelKernels ModelFuncs ModelAPI Spec SyncDefs Lem_IsiProps Lem_Transform Lem_Transform2 Lem_API Lem_WF Lem_API2.
 Require Import PS.Props.PropTac.
 Local Open Scope R_scope.
 
@@ -112,6 +112,25 @@ Theorem C08_spike_distance_mirror : forall s1 s2 ts te m ri, valid ts te s1 -> v
   pwl_int_all ROps (fst (fst P')) (snd (fst P')) (snd P') = pwl_int_all ROps (fst (fst P)) (snd (fst P)) (snd P).
 Proof. exact spike_integral_mirror. Qed.
 Print Assumptions C08_spike_distance_mirror.
+
+(* ---- API level: the scalar distances of both backends, over the whole recording or any
+   sub-interval (moved along), are unchanged by a shift and by a scaling with k > 0 (MRTS scaled along) ---- *)
+Theorem C08_isi_distance_shift : forall eps cy m iv c a b ts te, vtrain ts te a -> vtrain ts te b -> iv_ok ts te iv ->
+  isi_distance_bi ROps eps cy false m (shift_iv c iv) (shift_train c a) (shift_train c b) = isi_distance_bi ROps eps cy false m iv a b.
+Proof. exact isi_distance_shift_iv. Qed.
+Print Assumptions C08_isi_distance_shift.
+Theorem C08_isi_distance_scale : forall eps cy m iv k a b ts te, 0 < k -> vtrain ts te a -> vtrain ts te b -> iv_ok ts te iv ->
+  isi_distance_bi ROps eps cy false (k * m) (scale_iv k iv) (scale_train k a) (scale_train k b) = isi_distance_bi ROps eps cy false m iv a b.
+Proof. exact isi_distance_scale_iv. Qed.
+Print Assumptions C08_isi_distance_scale.
+Theorem C08_spike_distance_shift : forall eps cy m ri iv c a b ts te, vtrain ts te a -> vtrain ts te b -> iv_ok ts te iv ->
+  spike_distance_bi ROps eps cy false m ri (shift_iv c iv) (shift_train c a) (shift_train c b) = spike_distance_bi ROps eps cy false m ri iv a b.
+Proof. exact spike_distance_shift_iv. Qed.
+Print Assumptions C08_spike_distance_shift.
+Theorem C08_spike_distance_scale : forall eps cy m ri iv k a b ts te, 0 < k -> vtrain ts te a -> vtrain ts te b -> iv_ok ts te iv ->
+  spike_distance_bi ROps eps cy false (k * m) ri (scale_iv k iv) (scale_train k a) (scale_train k b) = spike_distance_bi ROps eps cy false m ri iv a b.
+Proof. exact spike_distance_scale_iv. Qed.
+Print Assumptions C08_spike_distance_scale.
 
 From PS Require Lem_Findings.
 (* KNOWN FINDING F13 as a theorem: the normalised spike-train order of two trains without spikes is
